@@ -205,6 +205,17 @@ def judge_copy(pair, seed, sub):
                         f"copy of {name}: a {type(sco).__name__} of the copy "
                         f"uses a symbol table object of the original"))
             break
+    # no symbol object is an entry of a table of the copy and of the original
+    root_syms = {id(sym) for sco in pair.root.walk(ScopingNode)
+                 for sym in sco.symbol_table.symbols}
+    for sco in cnode.walk(ScopingNode):
+        for sym in sco.symbol_table.symbols:
+            if id(sym) in root_syms:
+                out.append((f"shared-symbol:{type(sym).__name__}",
+                            f"copy of {name}: the {type(sym).__name__} "
+                            f"'{sym.name}' in a symbol table of the copy is "
+                            f"the same object as in the original"))
+                break
     # symbol ownership
     inside = 0
     if shape_ok:
@@ -227,11 +238,15 @@ def judge_copy(pair, seed, sub):
                         f"copied scopes, but in the copy the use reached via "
                         f"{'>'.join(route)} refers to {what}"))
     facts["uses_inside"] = inside
-    # written code
+    # written code (an expression is written differently without its parent,
+    # e.g. a function Call becomes a call statement: statements and above only)
+    from psyclone.psyir.nodes import DataNode, Schedule
+    in_expr = isinstance(tnode, DataNode) and \
+        not isinstance(tnode.parent, Schedule)
     for chan in ("F", "D"):
         tto, tco = write(tnode, chan), write(cnode, chan)
         facts[chan] = (not tto.startswith("ERR:"), not tco.startswith("ERR:"))
-        if all(facts[chan]) and tto != tco:
+        if all(facts[chan]) and tto != tco and not in_expr:
             out.append((f"copy-text-differs:{chan}",
                         f"copy of {name}: written code of the copy differs "
                         f"from the original's:\n{_diff(tto, tco)}"))
@@ -381,16 +396,18 @@ def _allowed_ops(cfg, hist):
 
 
 def _count_below(cfg, nfull, ncore, first_is_core):
-    """Upper bound of the number of histories that start with one given edit."""
-    total, layer, allcore = 1, 1, first_is_core
+    """Number of histories that start with one given edit if nothing is
+    refused (used to size the work items only)."""
+    total, anyops, coreonly = 1, 1, (1 if first_is_core else 0)
     for depth in range(2, max(cfg["core_depth"], cfg["full_depth"]) + 1):
         if depth <= cfg["full_depth"]:
-            layer *= nfull
-        elif depth <= cfg["core_depth"] and allcore:
-            layer *= ncore
-        else:
-            break
-        total += layer
+            anyops *= nfull
+            coreonly *= ncore
+            total += anyops
+        elif depth <= cfg["core_depth"]:
+            coreonly *= ncore
+            anyops = 0
+            total += coreonly
     return total
 
 
